@@ -382,9 +382,14 @@ def r4(ctx):
                   got=[render(c[2]) for c in cs], key="forward")
     sb = ctx.fbody(name="update_from_account_snapshot", self_adt=IS, trait="")
     cs = [(bi, t, tm) for bi, t, tm in sb.real_calls() if mir.short(tm[1]) == "InstrumentState::update_from_order_snapshot"]
-    ok = len(cs) == 1 and render(cs[0][2][2][0]) == "self" and "snapshot.orders" in render(cs[0][2][2][1])
-    ctx.check("InstrumentState::update_from_account_snapshot", ok, "every order of the snapshot goes through update_from_order_snapshot",
-              got=[render(c[2])[:200] for c in cs], key="each-order")
+    ok = len(cs) == 1 and render(cs[0][2][2][0]) == "self" and \
+        render(cs[0][2][2][1]) == "Snapshot::Snapshot{0: Iterator::next(snapshot.orders).as:Some.0}"
+    if ok:
+        g = sb.guard(cs[0][0])
+        ok = len(g) == 1 and [mir.render_atom(a) for a in next(iter(g))] == ["Iterator::next(snapshot.orders) is Some"]
+    ctx.check("InstrumentState::update_from_account_snapshot", ok,
+              "EVERY order report of the snapshot (active or not, unfiltered, unmodified) goes through update_from_order_snapshot",
+              got=[(render(c[2])[:200], render_guard(sb.guard(c[0]))[:160]) for c in cs], key="each-order")
 
 
 def r5(ctx):
